@@ -559,6 +559,25 @@ LTrees(m, c) ==
     LET LL == {Num(n) : n \in c.num} \cup {LenF(Fld)}
     IN UNION {Bins(c.rel \cup c.eq, NZL(LL, i, c), NZL(LL, k - 1 - i, c)) : <<k, i>> \in {<<kk, ii>> \in (1 .. m) \X (0 .. m - 1) : ii < kk}}
 
+\* P: products of a factor that is ZERO for some field value with a factor that is NaN for the same value
+\*    (x / 0 and x % 0 are NaN; IEEE-754: 0 * NaN = NaN, every ordering / equality with NaN is false, != is true),
+\*    in both factor orders, compared with 0 (full: also with 1) by all six comparison operators on either side,
+\*    and bare (numeric top-level result: only `no panic`).  Zero-able factors: $, $-1 / 1-$, len($), the literal 0.
+PTrees(fk, full) ==
+    LET Z1 == CASE fk = "num" -> {Fld, Bin("-", Fld, Num(Scale)), Num(0)}
+                [] fk \in {"str", "slice"} -> {LenF(Fld), Num(0)}
+                [] OTHER -> {Num(0)}
+        Z2 == CASE fk = "num" -> {Fld, Bin("-", Num(Scale), Fld), Num(0)}
+                [] fk \in {"str", "slice"} -> {LenF(Fld), Num(0)}
+                [] OTHER -> {Num(0)}
+        A  == IF fk = "num" \/ full THEN {Num(Scale), Num(2 * Scale)} ELSE {Num(Scale)}
+        Q  == {Bin(d, a, z) : d \in {"/", "%"}, a \in A, z \in Z2}
+        P  == {Bin("*", z, q) : z \in Z1, q \in Q} \cup {Bin("*", q, z) : z \in Z1, q \in Q}
+        K  == IF full THEN {Num(0), Num(Scale)} ELSE {Num(0)}
+    IN {Bin(c, p, k) : c \in RelOps \cup EqOps, p \in P, k \in K}
+       \cup {Bin(c, k, p) : c \in (IF full THEN RelOps \cup EqOps ELSE {"==", "<="}), p \in P, k \in K}
+       \cup P
+
 \* Unsorted trees of depth <= 2 over an arbitrary leaf set (ill-typed combinations included)
 Untyped2(leaves, ops, pats) ==
     leaves \cup Bins(ops, leaves, leaves) \cup {Not(x) : x \in leaves} \cup {Neg(x) : x \in leaves}
@@ -583,13 +602,15 @@ NoVal == FV("int", 0, "", FALSE)
 \* McLeafMode = "chain": every boolean-sorted tree with <= McDepth binary operators over ALL 13 operators
 ChainCfg == [num |-> {2 * Scale}, str |-> {"a"}, bool |-> {TRUE}, arith |-> MulOps \cup AddOps, rel |-> RelOps,
              eq |-> EqOps, logic |-> {"&&", "||"}, funcs |-> FALSE, pat |-> {"^a"}]
-\* McLeafMode = "funcs": the F and L families (operator chains inside function arguments, len($) inside chains)
+\* McLeafMode = "funcs": the F, L and P families (operator chains inside function arguments, len($) inside chains,
+\* zero * NaN products under comparisons)
 Init == /\ \E k \in (IF McLeafMode = "chain" THEN {"num", "bool"} ELSE Sorts) :
               /\ wfk = k
               /\ CASE McLeafMode = "chain" -> tree \in UNION {BZ(k, m, ChainCfg) : m \in 1 .. McDepth} /\ sortB = TRUE
                    [] McLeafMode = "funcs" ->
                         /\ tree \in FTrees(k, McDepth, [SmallCfg EXCEPT !.num = {2 * Scale}])
                                       \cup (IF k \in {"str", "slice"} THEN LTrees(McDepth, SmallCfg) ELSE {})
+                                      \cup {t \in PTrees(k, FALSE) : Tag(t) = "bin" /\ t[2] # "*"}
                         /\ sortB = TRUE
                    [] OTHER -> \/ tree \in BT(k, McDepth, McCfg) /\ sortB = TRUE
                                \/ tree \in NT(k, McDepth - 1, McCfg) \cup ST(k, McDepth - 1, McCfg) /\ sortB = FALSE
